@@ -3701,8 +3701,39 @@ static Value eval_expression(ASTNode *expr, Environment *env) {
         case AST_FLOAT:
             return create_float(expr->as.float_val);
 
-        case AST_STRING:
-            return create_string(expr->as.string_val);
+        case AST_STRING: {
+            /* The lexer keeps the raw source text of a string literal; compiled code sees the
+             * escape sequences interpreted (the C compiler / the bytecode generator do it), so
+             * the evaluator interprets the same ones: "a\tb" is three characters everywhere. */
+            const char *raw = expr->as.string_val;
+            if (!raw || !strchr(raw, '\\')) return create_string(raw ? raw : "");
+            size_t raw_len = strlen(raw);
+            char *buf = malloc(raw_len + 1);
+            if (!buf) return create_string(raw);
+            size_t n = 0;
+            for (size_t i = 0; i < raw_len; i++) {
+                if (raw[i] == '\\' && i + 1 < raw_len) {
+                    i++;
+                    switch (raw[i]) {
+                        case 'n': buf[n++] = '\n'; break;
+                        case 't': buf[n++] = '\t'; break;
+                        case 'r': buf[n++] = '\r'; break;
+                        case 'a': buf[n++] = '\a'; break;
+                        case 'b': buf[n++] = '\b'; break;
+                        case 'f': buf[n++] = '\f'; break;
+                        case 'v': buf[n++] = '\v'; break;
+                        case '0': buf[n++] = '\0'; break;
+                        default:  buf[n++] = raw[i]; break;
+                    }
+                } else {
+                    buf[n++] = raw[i];
+                }
+            }
+            buf[n] = '\0';
+            Value sv = create_string(buf);
+            free(buf);
+            return sv;
+        }
 
         case AST_BOOL:
             return create_bool(expr->as.bool_val);
